@@ -40,6 +40,7 @@ def expected(script):
     consumed_n = 0
     joined = 0
     conserved = 0
+    conserved64 = 0
     barriers = [0] * nthreads
     events_set = set()
     events_waits = 0
@@ -66,7 +67,10 @@ def expected(script):
             elif op == 10:
                 joined += x
             elif op == 11:
-                conserved += y
+                if z == 1:
+                    conserved64 += y * 4294967311
+                else:
+                    conserved += y
             elif op == 12:
                 events_waits += 1
             elif op == 13:
@@ -80,6 +84,7 @@ def expected(script):
     out.append("queue %d %d 0" % (produced, produced))
     out.append("joined %d" % joined)
     out.append("conserved %d" % conserved)
+    out.append("conserved64 %d" % conserved64)
     out.append("barrier %d 0" % barriers[0])
     out.append("events %d %d" % (len(events_set), events_waits))
     return "\n".join(out) + "\n"
@@ -153,11 +158,11 @@ def generate(rng, max_threads=5):
                 elif profile == "atomic" or (profile == "mixed" and r < 0.5):
                     k = rng.random()
                     if k < 0.4:
-                        ops.append((1, rng.randrange(natomic), rng.randint(1, 1000), 0))
+                        ops.append((1, rng.randrange(natomic), rng.choice([rng.randint(1, 1000), (1 << 33) + rng.randint(0, 9), (1 << 40) - 1]), 0))
                     elif k < 0.7:
-                        ops.append((7, rng.randrange(natomic), rng.randint(1, 1000), 0))
+                        ops.append((7, rng.randrange(natomic), rng.choice([rng.randint(1, 1000), (1 << 32) + rng.randint(0, 9), (1 << 45) + 3]), 0))
                     else:
-                        ops.append((11, rng.randrange(natomic), rng.randint(0, 1000), 0))
+                        ops.append((11, rng.randrange(natomic), rng.randint(0, 1000), rng.randrange(2)))
                 elif profile == "join" or (profile == "mixed" and r < 0.6):
                     ops.append((10, rng.randint(1, 100000), pk(), pk()))
                 elif r < 0.7:
